@@ -70,7 +70,7 @@ def f11_emulate(pattern, x0, dx, sel):
     return emu
 
 
-def build_lrs(rng, ctx, cons=None, xunits=b'FEET', dx_menu=(1, 5, 60, 250)):
+def build_lrs(rng, ctx, cons=None, xunits=b'FEET', dx_menu=(1, 5, 60, 250, 1, 5, 60, 250, 0)):          # 0: a stationary measurement, every frame at one X
     """the logical records of one LIS logical file (head, optional table, DFSR, data records, tail) + what they hold"""
     nch = rng.choice([1, 2, 3, 5])
     indirect = rng.random() < 0.5
